@@ -35,7 +35,7 @@ COMPONENTS = {
              "excel_rows", "cutplace.fields (all types)", "csv", "zipfile", "ElementTree", "xlrd"],
     "stub": ["text / ODF / XLSX peers", "SimFS/SimRaw"],
 }
-PROBES_REQUIRED = ["type:Decimal", "type:DateTime", "type:Integer", "type:Choice", "type:RegEx", "type:Pattern",
+PROBES_REQUIRED = ["datetime-with-time-part", "type:Decimal", "type:DateTime", "type:Integer", "type:Choice", "type:RegEx", "type:Pattern",
                    "type:Constant", "type:Text", "rejected-row", "check-rejection", "end-check-fails", "ellipsis-char-in-cid"]
 
 
@@ -48,6 +48,12 @@ def generate(seed, tier):
         fields.append({"name": "%s%d" % (kind[:3].lower(), index), "type": kind,
                        "empty": kind != "Constant" and swarm.random() < 0.25})
     fields[-1]["empty"] = False
+    for field in fields:
+        if field["type"] == "DateTime" and swarm.random() < 0.5:
+            # a layout with a time part; midnight is an ordinary value of it
+            field.update({"rule": "YYYY-MM-DD hh:mm:ss", "width": 19,
+                          "good": ["2020-03-02 00:00:00", "1999-12-31 23:59:59", "2021-06-15 12:00:00"],
+                          "bad": ["2020-02-30 00:00:00", "2020-03-02", "x"]})
     names = [field["name"] for field in fields]
     checks = []
     if swarm.random() < 0.4:
@@ -59,7 +65,7 @@ def generate(seed, tier):
     for _ in range(rng.randint(0, 6)):
         row = [tabular.draw_cell(rng, field, "delimited", 0.15) for field in fields]
         if row[-1] == "":
-            row[-1] = tabular.FIELD_KINDS[fields[-1]["type"]][2][0]
+            row[-1] = fields[-1].get("good", tabular.FIELD_KINDS[fields[-1]["type"]][2])[0]
         if rng.random() < 0.2:
             # surrounding blanks are part of the cell in every storage format
             index = rng.randrange(len(row))
@@ -156,6 +162,8 @@ def execute(scenario):
         ticks += fs.ticks
     for field in logical["fields"]:
         result.probe("type:" + field["type"])
+        if field.get("rule", "").endswith("ss"):
+            result.probe("datetime-with-time-part")
     if logical.get("sep") == "…":
         result.probe("ellipsis-char-in-cid")
     reference = outcomes.get("delimited")
@@ -225,7 +233,7 @@ def candidates(scenario):
             yield lib.with_value(scenario, ["cid", "fields", index, "empty"], False)
     for row_index, row in enumerate(scenario["table"]):
         for cell_index, cell in enumerate(row):
-            good = tabular.FIELD_KINDS[fields[cell_index]["type"]][2][0]
+            good = fields[cell_index].get("good", tabular.FIELD_KINDS[fields[cell_index]["type"]][2])[0]
             if cell != good:
                 candidate = copy.deepcopy(scenario)
                 candidate["table"][row_index][cell_index] = good
